@@ -90,6 +90,16 @@ class MemPerDocWriter(base.PerDocWriterWithColumns):
     def _get_column(self, fieldname):
         return self._colwriters[fieldname][1]
 
+    def add_column_value(self, fieldname, column, value):
+        # A new per-document writer is created for every batch of documents
+        # (BufferedWriter: for every document), so the values are kept on the
+        # segment and the column files are rewritten completely in close()
+        with self._segment._lock:
+            cols = self._segment._columns
+            if fieldname not in cols:
+                cols[fieldname] = (column, {})
+            cols[fieldname][1][self._docnum] = value
+
     def start_doc(self, docnum):
         self._doccount += 1
         self._docnum = docnum
@@ -114,11 +124,14 @@ class MemPerDocWriter(base.PerDocWriterWithColumns):
             self._segment._vectors[docnum] = self._vectors
 
     def close(self):
-        colwriters = self._colwriters
-        for fieldname in colwriters:
-            colfile, colwriter = colwriters[fieldname]
-            colwriter.finish(self._doccount)
-            colfile.close()
+        with self._segment._lock:
+            for fieldname, (column, values) in self._segment._columns.items():
+                colfile = self._storage.create_file("%s.c" % fieldname)
+                colwriter = column.writer(colfile)
+                for docnum in sorted(values):
+                    colwriter.add(docnum, values[docnum])
+                colwriter.finish(max(values) + 1 if values else 0)
+                colfile.close()
         self.is_closed = True
 
 
@@ -293,6 +306,7 @@ class MemSegment(base.Segment):
         self._stored = {}
         self._lengths = {}
         self._vectors = {}
+        self._columns = {}
         self._invindex = {}
         self._terminfos = {}
         self._lock = Lock()
